@@ -116,6 +116,9 @@ func DecodeSenc(hdr BoxHeader, startPos uint64, r io.Reader) (Box, error) {
 	if err != nil {
 		return nil, err
 	}
+	if len(data) < 8 { // possible with a 64-bit size header
+		return nil, fmt.Errorf("senc: payload size %d less than 8", len(data))
+	}
 
 	versionAndFlags := binary.BigEndian.Uint32(data[0:4])
 	version := byte(versionAndFlags >> 24)
@@ -124,10 +127,6 @@ func DecodeSenc(hdr BoxHeader, startPos uint64, r io.Reader) (Box, error) {
 		return nil, fmt.Errorf("version %d not supported", version)
 	}
 	sampleCount := binary.BigEndian.Uint32(data[4:8])
-
-	if len(data) < 8 {
-		return nil, fmt.Errorf("senc: box size %d less than 16", hdr.Size)
-	}
 
 	senc := SencBox{
 		Version:          version,
@@ -155,6 +154,9 @@ func DecodeSenc(hdr BoxHeader, startPos uint64, r io.Reader) (Box, error) {
 func DecodeSencSR(hdr BoxHeader, startPos uint64, sr bits.SliceReader) (Box, error) {
 	if hdr.Size < 16 {
 		return nil, fmt.Errorf("box size %d less than min size 16", hdr.Size)
+	}
+	if hdr.payloadLen() < 8 { // possible with a 64-bit size header
+		return nil, fmt.Errorf("senc: payload size %d less than 8", hdr.payloadLen())
 	}
 
 	versionAndFlags := sr.ReadUint32()
